@@ -46,6 +46,24 @@ func checkTunnel(r *tunRun) {
 	checkC05(v, m)
 	checkC09(v, m)
 	checkC10(v, m)
+	// C16: the connect request advertises the socket's real local endpoint when configured to,
+	// the all-zero (NAT) endpoint with the right protocol code otherwise
+	for _, x := range v.tx {
+		if x.F.OK && x.F.Svc == svcConnReq {
+			want := mkHPAI(1, [4]byte{}, 0)
+			if r.c.TCP {
+				want = mkHPAI(2, [4]byte{}, 0)
+			} else if r.c.LocalAddr {
+				if port := clientPort(r.e); port != 0 {
+					want = mkHPAI(1, [4]byte{10, 0, 0, 2}, uint16(port))
+				}
+			}
+			if string(x.F.HPAI) != string(want) || string(x.F.HPAI2) != string(want) {
+				r.e.Violate("C16", "connect-request-endpoint", "connect request advertises control endpoint %x and data endpoint %x; expected %x (SendLocalAddress=%v, tcp=%v)", x.F.HPAI, x.F.HPAI2, want, r.c.LocalAddr, r.c.TCP)
+				break
+			}
+		}
+	}
 	for _, x := range v.tx {
 		if !x.F.OK {
 			r.e.Violate("C16", "client-emitted-malformed-frame", "client wrote a frame whose header length disagrees with its size: %x", x.F.Raw)
@@ -526,4 +544,20 @@ func keysU8(m map[uint8]bool) []int {
 	}
 	sort.Ints(out)
 	return out
+}
+
+// clientPort is the local port of the client's UDP socket, from the fabric's socket labels.
+func clientPort(e *Env) int {
+	for _, rec := range e.F.Records() {
+		if strings.HasPrefix(rec.Sock, "udp:"+clientIP+":") {
+			rest := strings.TrimPrefix(rec.Sock, "udp:"+clientIP+":")
+			if i := strings.Index(rest, ">"); i >= 0 {
+				rest = rest[:i]
+			}
+			p := 0
+			fmt.Sscanf(rest, "%d", &p)
+			return p
+		}
+	}
+	return 0
 }
